@@ -5,7 +5,8 @@ From KG Require Import Prelude C15_Model C15_Spec.
 Open Scope Z_scope.
 
 Inductive case :=
-| CScen (cls : list scl) (reqs : list sreq) (act : saction) (after : list sreq)
+| CScen (cls : list scl) (ghosts : list (Z * list Z))    (* ghost objects: name, server names; synced after the clusters *)
+        (reqs : list sreq) (act : saction) (after : list sreq)
         (ro ao : list robs) (co : list clobs)
 | CBroken.
 
@@ -59,8 +60,9 @@ Definition setup_cluster (cls : list scl) (s : st) (ci : nat) : st :=
   let syncs := map (servers_of (ep_names cls ci)) (cl_pre cls ci) ++ [all_on (ep_names cls ci)] in
   fold_left (fun acc sv => answer_all (run code_ctxcheck acc [OUpsert (cl_name cls ci) (cl_aliases cls ci) sv])) syncs s.
 
-Definition setup (cls : list scl) : st :=
-  fold_left (setup_cluster cls) (seq 0 (List.length cls)) init.
+Definition setup (cls : list scl) (ghosts : list (Z * list Z)) : st :=
+  let s := fold_left (setup_cluster cls) (seq 0 (List.length cls)) init in
+  answer_all (run code_ctxcheck s (map (fun g => OUpsert (fst g) (snd g) [(9000 + fst g, false)]) ghosts)).
 
 (* bring request number id to its phase *)
 Definition bring (cls : list scl) (s : st) (id : Z) (q : sreq) (o : robs) : st :=
@@ -77,8 +79,9 @@ Fixpoint bring_all (cls : list scl) (s : st) (id : Z) (qs : list sreq) (os : lis
   | _, _ => s
   end.
 
-Definition act_op (cls : list scl) (act : saction) : list op :=
+Definition act_op (cls : list scl) (ghosts : list (Z * list Z)) (act : saction) : list op :=
   match act with
+  | AGhost g => match nth_error ghosts g with Some x => [ODelete (fst x)] | None => [] end
   | ADelete ci => [ODelete (cl_name cls ci)]
   | ARemove ci eps =>
       [OUpsert (cl_name cls ci) (cl_aliases cls ci)
@@ -146,11 +149,11 @@ Definition cl_agrees (cls : list scl) (s0 s : st) (evs : list event) (ci : nat) 
                  end) (ep_names cls ci) (o_eps c)
   end.
 
-Definition agree (cls : list scl) (reqs : list sreq) (act : saction) (after : list sreq)
+Definition agree (cls : list scl) (ghosts : list (Z * list Z)) (reqs : list sreq) (act : saction) (after : list sreq)
                  (ro ao : list robs) (co : list clobs) : bool :=
-  let s0 := setup cls in
+  let s0 := setup cls ghosts in
   let s1 := bring_all cls s0 0 reqs ro in
-  let s2 := run code_ctxcheck s1 (act_op cls act) in
+  let s2 := run code_ctxcheck s1 (act_op cls ghosts act) in
   let s3 := wind_all s2 0 reqs ro in
   let s4 := bring_all cls s3 1000 after ao in
   let s5 := wind_all s4 1000 after ao in
@@ -163,6 +166,7 @@ Definition agree (cls : list scl) (reqs : list sreq) (act : saction) (after : li
 (* clause layout: agree, not_routed, inflight_cut, prompt, probing_stops, others_unaffected *)
 Definition eval (c : case) : list bool :=
   match c with
-  | CScen cls reqs act after ro ao co => agree cls reqs act after ro ao co :: scen_ok cls reqs act after ro ao co
+  | CScen cls ghosts reqs act after ro ao co =>
+      agree cls ghosts reqs act after ro ao co :: scen_ok cls reqs act after ro ao co
   | CBroken => [false; true; true; true; true; true]
   end.
